@@ -77,6 +77,158 @@ fn host_fail(vm: &mut Vm, num_args: usize) -> Result<Value, Error> {
     Err(Error::with_message(kind, &msg))
 }
 
+/// An import graph (the C14 generator) whose modules each get a set of links — a function, a static
+/// method, an instance method and a lambda held in a module global — that pass control to a link of
+/// the next module in a list handed down from main; the innermost link fails. The trace of the
+/// uncaught error then has one entry per link, each in a different module and of a different
+/// callable kind. One time in four main instead ends with one of the short cross-module failures.
+fn module_trace_program(bytes: &[u8]) -> crate::ast::Program {
+    use crate::ast::*;
+    use std::cell::{Cell, RefCell};
+    use std::rc::Rc;
+    let (mut p, _) = crate::gen_mod::program(bytes);
+    let mut rd = Rd::new(bytes, 400);
+    let v = |x: &str| Expr::var(x);
+    let n = |x: f64| Expr::Num(x);
+    let good: Vec<String> = p
+        .modules
+        .iter()
+        .filter_map(|(path, m)| match m {
+            ModuleSrc::Ast(_) => Some(path.clone()),
+            _ => None,
+        })
+        .collect();
+    if good.is_empty() {
+        return p;
+    }
+    let mode = rd.below(4);
+    if mode == 0 {
+        let path = good[rd.below(good.len())].clone();
+        let name = path.rsplit('/').next().unwrap().to_string();
+        p.main.push(Stmt::new(StmtKind::Import(path.clone(), None)));
+        p.main.push(match rd.below(3) {
+            0 => Stmt::print(Expr::invoke(v(&name), "reads_importer_global", vec![])),
+            1 => Stmt::print(Expr::invoke(v(&name), "bump", vec![n(1.0)])),
+            _ => Stmt::print(Expr::get(v(&name), "no_such_member")),
+        });
+        return p;
+    }
+    // the step to the next link: ms[d - 1].<link>(ms, d - 1)
+    fn next_link(rd: &mut Rd) -> Expr {
+        let v = |x: &str| Expr::var(x);
+        let dm1 = || Expr::bin(BinOp::Sub, v("d"), Expr::Num(1.0));
+        let target = Expr::index(v("ms"), dm1());
+        let args = vec![v("ms"), dm1()];
+        match rd.below(5) {
+            0 | 1 => Expr::invoke(target, "chain", args),
+            2 => Expr::invoke(Expr::get(target, "Link"), "via", args),
+            3 => Expr::invoke(Expr::invoke(Expr::get(target, "Link"), "new", vec![]), "meth", args),
+            _ => Expr::invoke(target, "lam", args),
+        }
+    }
+    fn failing(rd: &mut Rd) -> Stmt {
+        let v = |x: &str| Expr::var(x);
+        match rd.below(7) {
+            0 => Stmt::new(StmtKind::Throw(Expr::str("thrown text"))),
+            1 => Stmt::new(StmtKind::Throw(Expr::invoke(v("Error"), "new", vec![Expr::str("made here")]))),
+            2 => Stmt::new(StmtKind::Return(Some(Expr::bin(BinOp::Add, Expr::Num(1.0), Expr::Nil)))),
+            3 => Stmt::new(StmtKind::Return(Some(Expr::index(Expr::VecLit(vec![]), Expr::Num(3.0))))),
+            4 => Stmt::new(StmtKind::Return(Some(v("no_such_global_anywhere")))),
+            5 => Stmt::new(StmtKind::Return(Some(Expr::get(v("tag"), "no_such_member")))),
+            _ => Stmt::new(StmtKind::Return(Some(Expr::invoke(Expr::str("abc"), "find", vec![Expr::Num(1.0)])))),
+        }
+    }
+    fn link_body(rd: &mut Rd) -> Vec<Stmt> {
+        let v = |x: &str| Expr::var(x);
+        let mut b = Vec::new();
+        if rd.chance(1, 3) {
+            b.push(Stmt::var("pad", Some(Expr::VecLit(vec![v("tag"), v("d")]))));
+        }
+        b.push(Stmt::new(StmtKind::If(
+            Expr::bin(BinOp::Le, v("d"), Expr::Num(0.0)),
+            vec![failing(rd)],
+            None,
+        )));
+        if rd.chance(1, 3) {
+            b.push(Stmt::var("r", Some(next_link(rd))));
+            b.push(Stmt::new(StmtKind::Return(Some(v("r")))));
+        } else {
+            b.push(Stmt::new(StmtKind::Return(Some(next_link(rd)))));
+        }
+        b
+    }
+    let mk = |name: &str, kind: FnKind, params: Vec<&str>, body: Body| {
+        Rc::new(FnDef {
+            name: RefCell::new(name.to_string()),
+            params: params.iter().map(|s| s.to_string()).collect(),
+            body,
+            kind,
+        })
+    };
+    let mut links = |rd: &mut Rd| -> Vec<Stmt> {
+        let mut out = Vec::new();
+        out.push(Stmt::new(StmtKind::Fn(mk("chain", FnKind::Function, vec!["ms", "d"], Body::Block(link_body(rd))))));
+        out.push(Stmt::new(StmtKind::Class(Rc::new(ClassDef {
+            name: "Link".into(),
+            superclass: None,
+            default_ctor: Some("new".into()),
+            methods: vec![
+                mk("via", FnKind::Static, vec!["ms", "d"], Body::Block(link_body(rd))),
+                mk("meth", FnKind::Method, vec!["ms", "d"], Body::Block(link_body(rd))),
+            ],
+            attr_line: Cell::new(0),
+        }))));
+        let lam_body = if rd.flag() {
+            Body::Block(link_body(rd))
+        } else {
+            // expression-bodied: no innermost failure of its own, it only passes control on
+            Body::Expr(Box::new(Expr::invoke(
+                Expr::index(v("ms"), Expr::bin(BinOp::Sub, v("d"), n(1.0))),
+                "chain",
+                vec![v("ms"), Expr::bin(BinOp::Sub, v("d"), n(1.0))],
+            )))
+        };
+        out.push(Stmt::var("lam", Some(Expr::Lambda(mk("", FnKind::Lambda, vec!["ms", "d"], lam_body)))));
+        out
+    };
+    for (_, m) in p.modules.iter_mut() {
+        if let ModuleSrc::Ast(body) = m {
+            // after `tag` and `counter` (the first three statements), before anything that may fail
+            let at = body.len().min(3);
+            let l = links(&mut rd);
+            for (k, s) in l.into_iter().enumerate() {
+                body.insert(at + k, s);
+            }
+        }
+    }
+    // main has links of its own, so a chain can come back through the importer
+    let l = links(&mut rd);
+    let at = p.main.len().min(3);
+    for (k, s) in l.into_iter().enumerate() {
+        p.main.insert(at + k, s);
+    }
+    // import up to four modules without a guard, list them (main itself is not a module object, so
+    // the list holds module objects only), then start the chain
+    let depth = 1 + rd.below(7);
+    let mut bound: Vec<String> = Vec::new();
+    for _ in 0..(1 + rd.below(4)) {
+        let path = good[rd.below(good.len())].clone();
+        let name = path.rsplit('/').next().unwrap().to_string();
+        p.main.push(Stmt::new(StmtKind::Import(path.clone(), None)));
+        bound.push(name);
+    }
+    let ms: Vec<Expr> = (0..depth).map(|_| v(&bound[rd.below(bound.len())])).collect();
+    p.main.push(Stmt::var("chain_ms", Some(Expr::VecLit(ms))));
+    let start = match rd.below(4) {
+        0 => Expr::callv("chain", vec![v("chain_ms"), n(depth as f64)]),
+        1 => Expr::invoke(v("Link"), "via", vec![v("chain_ms"), n(depth as f64)]),
+        2 => Expr::invoke(Expr::invoke(v("Link"), "new", vec![]), "meth", vec![v("chain_ms"), n(depth as f64)]),
+        _ => Expr::callv("lam", vec![v("chain_ms"), n(depth as f64)]),
+    };
+    p.main.push(if rd.flag() { Stmt::print(start) } else { Stmt::var("chain_result", Some(start)) });
+    p
+}
+
 const HOST_CLASSES: [&str; 8] = [
     "AttributeError", "RuntimeError", "ImportError", "IndexError", "NameError", "RuntimeError", "TypeError", "ValueError",
 ];
@@ -297,8 +449,9 @@ impl Property for C17 {
                 crate::pretty::render_noisy(&p.main, &bytes.iter().rev().take(16).cloned().collect::<Vec<u8>>())
             }
             "module_traces" => {
-                let (p, _) = crate::gen_mod::program(bytes);
-                let (m, mods) = crate::pretty::render_program(&p, &[]);
+                let p = module_trace_program(bytes);
+                crate::astutil::fix_lambda_names(&p);
+                let (m, mods) = crate::pretty::render_program(&p, &bytes.iter().rev().take(16).cloned().collect::<Vec<u8>>());
                 format!("{}\n{}", m, mods.iter().map(|(a, b)| format!("--- {}\n{}", a, b)).collect::<String>())
             }
             _ => format!("{} bytes: {}", bytes.len(), hex(&bytes[..bytes.len().min(24)])),
@@ -313,25 +466,8 @@ impl Property for C17 {
             "host_natives" => self.host_natives(&bytes, ctx),
             _ => {
                 let (prog, noise): (crate::ast::Program, Vec<u8>) = if family == "module_traces" {
-                    let (mut p, _) = crate::gen_mod::program(&bytes);
-                    // an unguarded failing call at the end of main
-                    use crate::ast::*;
-                    let mut rd = Rd::new(&bytes, 100);
-                    let which = rd.below(3);
-                    let target = p.modules.iter().find_map(|(path, m)| match m {
-                        ModuleSrc::Ast(_) => Some(path.clone()),
-                        _ => None,
-                    });
-                    if let Some(path) = target {
-                        let name = path.rsplit('/').next().unwrap().to_string();
-                        p.main.push(Stmt::new(StmtKind::Import(path.clone(), None)));
-                        p.main.push(match which {
-                            0 => Stmt::print(Expr::invoke(Expr::var(&name), "reads_importer_global", vec![])),
-                            1 => Stmt::print(Expr::invoke(Expr::var(&name), "bump", vec![Expr::Num(1.0)])),
-                            _ => Stmt::print(Expr::get(Expr::var(&name), "no_such_member")),
-                        });
-                    }
-                    (p, vec![])
+                    let p = module_trace_program(&bytes);
+                    (p, bytes.iter().rev().take(16).cloned().collect())
                 } else {
                     let (p, _) = gen::program(&bytes, profile());
                     (p, bytes.iter().rev().take(16).cloned().collect())
